@@ -160,10 +160,19 @@ func (c *FakeCluster) Delay(n int, d time.Duration) { c.mu.Lock(); c.delay[n] = 
 
 // Readdress restarts node n on a new port: same node id, same data, new address.
 func (n *FakeNode) Readdress() error {
+	old := n.Addr
 	n.Down()
-	ln, err := net.Listen("tcp", "127.0.0.1:0")
-	if err != nil {
-		return err
+	var ln net.Listener
+	for {
+		l, err := net.Listen("tcp", "127.0.0.1:0")
+		if err != nil {
+			return err
+		}
+		if l.Addr().String() != old { // the kernel may hand the port that was just freed out again
+			ln = l
+			break
+		}
+		defer l.Close()
 	}
 	n.c.mu.Lock()
 	n.Addr = ln.Addr().String()
